@@ -42,8 +42,9 @@ MkCase(i) ==
       tree |-> [k \in 1..Len(plugins) |-> [repo |-> plugins[k].repo, name |-> plugins[k].name, versions |-> plugins[k].versions]],
       dbs |-> MkDbs(RandomElement(1..2), plugins),
       install |-> [name |-> Pick(Names), manifest |-> SetToSeq(M), manifest_text |-> [k \in 1..Cardinality(M) |-> VText(SetToSeq(M)[k])], constraint |-> CText(c), expect |-> Select(M, c)]]
-RECURSIVE Cases(_)
-Cases(n) == IF n = 0 THEN <<>> ELSE Append(Cases(n - 1), MkCase(n))
+RECURSIVE CasesFrom(_, _)
+CasesFrom(lo, hi) == IF lo > hi THEN <<>> ELSE IF lo = hi THEN <<MkCase(lo)>> ELSE LET mid == (lo + hi) \div 2 IN CasesFrom(lo, mid) \o CasesFrom(mid + 1, hi)
+Cases(n) == CasesFrom(1, n)
 ASSUME VersionLaws
 ASSUME ndJsonSerialize("c28_cases.ndjson", Cases(N))
 VARIABLE x
